@@ -69,6 +69,8 @@ func runC19(c *report.Ctx) {
 
 	// ---- (3) pointer with error / from map -------------------------------------------------------
 	rulePtrWithErr(c)
+	ruleNilOnSuccess(c)
+	ruleSelectionResetOnDelete(c)
 
 	// ---- (4) containment ------------------------------------------------------------------------
 	c.Rule("recover", "every goroutine the wallet starts defers Recover() before anything else, so a panic is logged instead of killing the process", 2)
